@@ -57,6 +57,9 @@ type EnumOpts struct {
 	// Boundary decides whether position k (crash after log[k-1]) is enumerated.
 	// nil: every position after an I/O op and after every marker.
 	Boundary func(k int) bool
+	// Base is the durable content of the disk before the first op of the log
+	// (nil: empty disk). Used for logs recorded on a disk created from an image.
+	Base []byte
 }
 
 // Enumerate walks the op log from position `from` (exclusive lower bound for
@@ -64,7 +67,7 @@ type EnumOpts struct {
 // calls visit for every crash image. visit must not retain img.
 // rnd supplies pseudo random numbers for subset sampling.
 func Enumerate(log []Op, from int, o EnumOpts, rnd func() uint64, visit func(spec CrashSpec, pend []PendOp, img []byte)) {
-	var base []byte
+	base := append([]byte(nil), o.Base...)
 	var pend []PendOp
 	seen := map[uint64]struct{}{}
 	epoch := 0
